@@ -371,7 +371,11 @@ func (t *RoundTripper) RoundTrip(req *http.Request) (*http.Response, error) {
 	r.mu.Lock()
 	r.expectWr[id] = true
 	r.mu.Unlock()
-	r.Log.Add(Ev{K: "RTLeave", Conn: id, A: err == nil})
+	k := "RTLeave"
+	if err == nil && res != nil && res.StatusCode == http.StatusSwitchingProtocols {
+		k = "RTLeaveUp" // the exchange becomes a tunnel (WebSocket)
+	}
+	r.Log.Add(Ev{K: k, Conn: id, A: err == nil})
 	return res, err
 }
 
